@@ -1,64 +1,15 @@
-"""C07 mutation catalogue: (property, name, [(file, old, new)]).
+"""C07 mutation catalogue: (property, name, [(file, old, new)] | [("@patch", stored diff, -p level)]).
 
-The pinned tree violates C07 by itself (notes/C07.md: transport failure before
-the first response signalled as NotObservable; final response lost behind the
-iterator).  That would make every mutation look "caught" and every control a
-"false alarm", so as long as /repo lacks the repairs every entry first applies
-the proposed repairs (notes/C07-proposed-fix.patch) and then its own change;
-the control "proposed-fix-only" shows that the repaired tree is silent."""
+The three defects the check found on the pinned tree (notes/C07.md, D1-D3) are repaired in /repo; their
+reverts are mutations here.  The `adv-*` entries are the changes a white-box adversary found unreported
+(notes/adversary/C07_miss*.md); they are caught since block-wise notification bodies, every 2.xx code,
+other requests next to the observation and a token counter coming round are part of the schedules."""
 
 P = "aiocoap/protocol.py"
 TM = "aiocoap/tokenmanager.py"
 CO = "aiocoap/numbers/constants.py"
-
-_FIX = [
-    # transport failure before the first response is a network error, not "not observable"
-    (
-        P,
-        "        if first_event.is_last:\n            self.observation.error(error.NotObservable())\n            return\n",
-        "        if first_event.exception is not None:\n            # no response at all: the observation fails the way the request did\n"
-        "            self.observation.error(first_event.exception)\n            return\n\n"
-        "        if first_event.is_last:\n            self.observation.error(error.NotObservable())\n            return\n",
-    ),
-    # the end of the observation does not overwrite the latest unfetched item
-    (
-        P,
-        "            self._future = asyncio.get_running_loop().create_future()\n\n        def push(self, item):",
-        "            self._future = asyncio.get_running_loop().create_future()\n            self._pending_error = None\n\n        def push(self, item):",
-    ),
-    (
-        P,
-        "        def push_err(self, e):\n            if self._future.done():\n                self._future = asyncio.get_running_loop().create_future()\n            self._future.set_exception(e)\n",
-        "        def push_err(self, e):\n            if self._future.done():\n                self._pending_error = e\n            else:\n                self._future.set_exception(e)\n",
-    ),
-    (
-        P,
-        "                if f is self._future:\n                    self._future = asyncio.get_running_loop().create_future()\n                return result\n",
-        "                if f is self._future:\n                    self._future = asyncio.get_running_loop().create_future()\n"
-        "                    if self._pending_error is not None:\n                        self._future.set_exception(self._pending_error)\n"
-        "                        self._pending_error = None\n                return result\n",
-    ),
-    # a registration after the end is still told the latest response
-    (
-        P,
-        "        if self.cancelled:\n            return\n\n        self.callbacks.append(callback)\n",
-        "        if self.cancelled:\n            if self._latest_response is not None:\n                callback(self._latest_response)\n            return\n\n"
-        "        self.callbacks.append(callback)\n",
-    ),
-]
-
-
-def _fix():
-    """Only the repairs the tree does not have yet."""
-    out = []
-    for f, old, new in _FIX:
-        src = open("/repo/" + f).read()
-        if src.count(old) == 1 and new not in src:
-            out.append((f, old, new))
-    return out
-
-
-FIX = _fix()
+A = "notes/adversary/"
+FIX = []
 
 MUTATIONS = [
     ("C07", "half-range-2^24-in-forward-comparison", FIX + [(P, "(v1 < v2 and v2 - v1 < 2**23)", "(v1 < v2 and v2 - v1 < 2**24)")]),
@@ -74,11 +25,19 @@ MUTATIONS = [
     ("C07", "not-observable-not-signalled", FIX + [(P, "            self.observation.error(error.NotObservable())\n            return\n", "            return\n")]),
     ("C07", "network-error-during-observation-swallowed", FIX + [(P, "                self.observation.error(next_event.exception)\n", "                pass\n")]),
     ("C07", "token-kept-after-the-end", FIX + [(TM, "        if final:\n            self.outgoing_requests.pop(key)\n", "        if final:\n            pass\n"), (TM, "            functools.partial(self.outgoing_requests.pop, key, None)\n", "            lambda: None\n")]),
+    ("C07", "request-failure-signalled-as-not-observable", [(P, "        if first_event.exception is not None:\n", "        if first_event.exception is not None and False:\n")]),
+    ("C07", "end-overwrites-unfetched-final-response", [(P, "                self._pending_error = e\n            else:\n                self._future.set_exception(e)\n", "                self._future = asyncio.get_running_loop().create_future()\n            self._future.set_exception(e)\n")]),
+    ("C07", "late-registration-after-end-not-told-latest", [(P, "            if self._latest_response is not None:\n                callback(self._latest_response)\n            return\n", "            return\n")]),
+    ("C07", "late-registration-on-live-observation-not-told-latest", [(P, "        self.callbacks.append(callback)\n        if self._latest_response is not None:\n            callback(self._latest_response)\n", "        self.callbacks.append(callback)\n")]),
+    ("C07", "adv-blockwise-notification-completed-in-background", [("@patch", A + "C07_miss1.diff", 3)]),
+    ("C07", "adv-only-2.05-and-2.03-keep-the-observation", [("@patch", A + "C07_miss2.diff", 3)]),
+    ("C07", "adv-token-counter-wraps-at-2^16", [("@patch", A + "C07_miss3.diff", 3)]),
+    ("C07", "token-counter-wraps-at-2^8", [(TM, "        self._token = (self._token + 1) % (2**64)\n", "        self._token = (self._token + 1) % (2**8)\n")]),
     ("C07", "iterator-keeps-oldest-instead-of-latest", FIX + [(P, "                # we don't care whether we overwrite anything, this is a lossy queue as observe is lossy\n                self._future = asyncio.get_running_loop().create_future()\n", "                return\n")]),
 ]
 
 CONTROLS = [
-    ("C07", "proposed-fix-only", FIX) if FIX else ("C07", "reset-time-as-float", [(CO, "    OBSERVATION_RESET_TIME = 128\n", "    OBSERVATION_RESET_TIME = 128.0\n")]),
-    ("C07", "freshness-rule-written-differently", FIX + [(P, "(v1 < v2 and v2 - v1 < 2**23)", "(v2 > v1 and v2 - v1 <= 2**23 - 1)")]),
-    ("C07", "reset-time-128-as-expression", FIX + [(CO, "    OBSERVATION_RESET_TIME = 128\n", "    OBSERVATION_RESET_TIME = 2**7\n")]),
+    ("C07", "reset-time-as-float", [(CO, "    OBSERVATION_RESET_TIME = 128\n", "    OBSERVATION_RESET_TIME = 128.0\n")]),
+    ("C07", "freshness-rule-written-differently", [(P, "(v1 < v2 and v2 - v1 < 2**23)", "(v2 > v1 and v2 - v1 <= 2**23 - 1)")]),
+    ("C07", "token-counter-counts-by-three", [(TM, "        self._token = (self._token + 1) % (2**64)\n", "        self._token = (self._token + 3) % (2**64)\n")]),
 ]
